@@ -277,7 +277,7 @@ func (e *Enc) enterLoop(fr *Frame, b *ssa.BasicBlock, hdr *loopHdr, in *State, b
 	for _, phi := range phis {
 		s := sortOf(phi.Type())
 		nv := c.Fresh("loop:"+phi.Comment, s)
-		if wf := e.wellFormed(nv, phi.Type(), in.Alloc); !wf.IsTrue() {
+		if wf := e.wellFormed(nv, phi.Type(), in); !wf.IsTrue() {
 			e.assume(in, wf)
 		}
 		fr.Vals[phi] = &Val{T: nv}
@@ -347,6 +347,7 @@ type FuncResult struct {
 	UsedSpecs  []string
 	UsedExtern []string
 	Notes      []string
+	Heaps      []string
 }
 
 // VerifyFunc generates the obligations of fn against its contract.
@@ -379,7 +380,7 @@ func VerifyFunc(p *Program, fn *ssa.Function) (res *FuncResult) {
 	for _, prm := range fn.Params {
 		t := c.Const("arg:"+prm.Name(), sortOf(prm.Type()))
 		args = append(args, &Val{T: t})
-		if wf := e.wellFormed(t, prm.Type(), st.Alloc); !wf.IsTrue() {
+		if wf := e.wellFormed(t, prm.Type(), st); !wf.IsTrue() {
 			e.assume(st, wf)
 		}
 	}
@@ -387,7 +388,7 @@ func VerifyFunc(p *Program, fn *ssa.Function) (res *FuncResult) {
 	for _, fv := range fn.FreeVars {
 		t := c.Const("free:"+fv.Name(), sortOf(fv.Type()))
 		bind = append(bind, &Val{T: t})
-		e.assume(st, e.wellFormed(t, fv.Type(), st.Alloc))
+		e.assume(st, e.wellFormed(t, fv.Type(), st))
 	}
 	pkg := fnPkg(fn)
 	// requires
@@ -482,5 +483,11 @@ func VerifyFunc(p *Program, fn *ssa.Function) (res *FuncResult) {
 	res.UsedSpecs = sortedKeys(e.UsedSpecs)
 	res.UsedExtern = sortedKeys(e.UsedExtern)
 	res.Notes = e.Notes
+	for h, t := range out.Heaps {
+		if _, ok := e.init[h]; !ok || e.init[h] != t {
+			res.Heaps = append(res.Heaps, h)
+		}
+	}
+	sort.Strings(res.Heaps)
 	return res
 }
